@@ -88,6 +88,20 @@ theorem map_swapList {α β : Type} (f : α → β) (xs : List α) (a b : Nat) :
   unfold swapList
   cases xs[a]? <;> cases xs[b]? <;> simp
 
+theorem swapList_perm {α : Type} (xs : List α) (a b : Nat) : (swapList xs a b).Perm xs := by
+  unfold swapList
+  cases ha : xs[a]? with
+  | none => simp
+  | some x =>
+    cases hb : xs[b]? with
+    | none => simp
+    | some y =>
+      obtain ⟨h1, e1⟩ := List.getElem?_eq_some_iff.mp ha
+      obtain ⟨h2, e2⟩ := List.getElem?_eq_some_iff.mp hb
+      simp only
+      rw [← e1, ← e2]
+      exact List.set_set_perm h1 h2
+
 /-- `slice::swap(a, b)`: panics iff an index is out of range. -/
 def swapOp (a b : Nat) : PolyOp :=
   .ofTotal (fun n k => decide (a < n) && decide (b < n) && k == 0) (fun xs _ => (swapList xs a b, []))
